@@ -88,6 +88,7 @@ class MMD(BaseDistanceBased):
             else:
                 raise TypeError("chunk_size must be of type int or None.")
         self._chunk_size = value
+        self.statistical_kwargs["chunk_size"] = value
 
     @property
     def kernel(self) -> Callable:  # type: ignore
@@ -109,6 +110,7 @@ class MMD(BaseDistanceBased):
         if not isinstance(value, Callable):  # type: ignore
             raise TypeError("kernel must be of type Callable.")
         self._kernel = value
+        self.statistical_kwargs["kernel"] = value
 
     def _distance_measure(
         self,
